@@ -435,3 +435,208 @@ func ruleRequestAdmission(e *Engine, r *Report) {
 	r.floor(rule, n, 5)
 	_ = token.ADD
 }
+
+// ---------------------------------------------------------------------------
+// Record construction: every field of a record built from another record is
+// taken from its designated source ("a wrong field, a swapped variable").
+
+// src describes where a field's value has to come from.
+type src struct {
+	kind    string // field | param | const | call | method | recvfield
+	a, b, c string
+}
+
+func srcField(pkg, typ, fld string) src { return src{"field", pkg, typ, fld} }
+func srcParam(name string) src          { return src{"param", name, "", ""} }
+func srcConst(pkg, name string) src     { return src{"const", pkg, name, ""} }
+func srcMethod(name string) src         { return src{"method", name, "", ""} }
+
+func (e *Engine) srcPred(fn *ssa.Function, s src) (func(ssa.Value) bool, string, bool) {
+	switch s.kind {
+	case "field":
+		f := e.Field(s.a, s.b, s.c)
+		if f == nil {
+			return nil, s.b + "." + s.c, false
+		}
+		return func(v ssa.Value) bool { return fieldV(f)(v) }, s.b + "." + s.c, true
+	case "param":
+		return func(v ssa.Value) bool {
+			p, ok := v.(*ssa.Parameter)
+			return ok && p.Name() == s.a
+		}, "parameter " + s.a, true
+	case "const":
+		c := e.Const(s.a, s.b)
+		if c == nil {
+			return nil, s.a + "." + s.b, false
+		}
+		return func(v ssa.Value) bool { return constV(c)(v) }, "constant " + s.b, true
+	case "method":
+		return func(v ssa.Value) bool {
+			c, ok := v.(*ssa.Call)
+			if !ok {
+				return false
+			}
+			if c.Call.IsInvoke() {
+				return c.Call.Method.Name() == s.a
+			}
+			sc := c.Call.StaticCallee()
+			return sc != nil && sc.Name() == s.a
+		}, s.a + "()", true
+	}
+	return nil, "", false
+}
+
+// recordSources: for every non-zero write of T.fld inside the region of the
+// functions named by fnKeys, the value depends on one of the sources.
+func (r *Report) recordSources(rule string, fnKeys []string, tpkg, typ string, table map[string][]src, why string) int {
+	e := r.e
+	n := 0
+	inScope := map[*ssa.Function]bool{}
+	for _, k := range fnKeys {
+		fn := r.need(k)
+		if fn == nil {
+			continue
+		}
+		for _, g := range e.regionOf(fn, 0) {
+			inScope[g] = true
+		}
+		inScope[fn] = true
+	}
+	var flds []string
+	for f := range table {
+		flds = append(flds, f)
+	}
+	sortStrings(flds)
+	for _, fld := range flds {
+		tf := r.needField(tpkg, typ, fld)
+		if tf == nil {
+			continue
+		}
+		cnt := 0
+		for _, w := range e.FieldWrites(tf) {
+			if (w.Kind != "init" && w.Kind != "store") || !inScope[w.Fn] {
+				continue
+			}
+			if c, isC := w.Val.(*ssa.Const); isC {
+				if c.Value == nil || c.Value.ExactString() == "0" || c.Value.ExactString() == "false" || c.Value.ExactString() == `""` {
+					continue // zero initialisation of a literal is not a value
+				}
+			}
+			cnt++
+			ok := false
+			var names []string
+			for _, s := range table[fld] {
+				p, nm, found := e.srcPred(w.Fn, s)
+				names = append(names, nm)
+				if !found {
+					r.undecided("ANCHOR", nm, "source of "+typ+"."+fld+" no longer resolves")
+					continue
+				}
+				if e.dependsOn(w.Val, p, 1) {
+					ok = true
+				}
+			}
+			r.check(ok, rule, typ+"."+fld+" set in "+fname(w.Fn), e.ipos(w.Instr),
+				"taken from "+joinOr(names), typ+"."+fld+" is not taken from "+joinOr(names)+": "+why)
+		}
+		if cnt > 0 {
+			n++
+		} else {
+			r.bad(rule, typ+"."+fld+" set in "+fnKeys[0], "-", typ+"."+fld+" is no longer set where the record is built: "+why)
+		}
+	}
+	return n
+}
+
+func joinOr(ss []string) string {
+	out := ""
+	for i, s := range ss {
+		if i > 0 {
+			out += " or "
+		}
+		out += s
+	}
+	return out
+}
+
+func sortStrings(s []string) {
+	for i := 1; i < len(s); i++ {
+		for j := i; j > 0 && s[j] < s[j-1]; j-- {
+			s[j], s[j-1] = s[j-1], s[j]
+		}
+	}
+}
+
+// ruleChunkRecordSources (C15, C08): the chunk records built by the sender
+// (file mode and streaming mode), the deployment id stamped by the sending
+// job, and the InstallSnapshot notification the receiver builds from the
+// first chunk: each field comes from the field that means the same thing.
+func ruleChunkRecordSources(e *Engine, r *Report) {
+	rule := "TBL-chunk-record-sources"
+	n := 0
+	n += r.recordSources(rule, []string{"internal/transport.splitBySnapshotFile"}, "raftpb", "Chunk", map[string][]src{
+		"ShardID":        {srcField("raftpb", "Message", "ShardID")},
+		"ReplicaID":      {srcField("raftpb", "Message", "To")},
+		"From":           {srcField("raftpb", "Message", "From")},
+		"OnDiskIndex":    {srcField("raftpb", "Snapshot", "OnDiskIndex")},
+		"Membership":     {srcField("raftpb", "Snapshot", "Membership")},
+		"Witness":        {srcField("raftpb", "Snapshot", "Witness")},
+		"Filepath":       {srcParam("filepath")},
+		"FileSize":       {srcParam("filesize")},
+		"FileChunkCount": {srcParam("filesize")},
+		"ChunkSize":      {srcParam("filesize")},
+		"ChunkId":        {srcParam("startChunkID")},
+		"BinVer":         {srcConst("raftio", "TransportBinVersion")},
+	}, "the receiver files the chunk under the wrong replica / snapshot or reassembles the wrong bytes")
+	n += r.recordSources(rule, []string{"internal/transport.getWitnessChunk"}, "raftpb", "Chunk", map[string][]src{
+		"ShardID":    {srcField("raftpb", "Message", "ShardID")},
+		"ReplicaID":  {srcField("raftpb", "Message", "To")},
+		"From":       {srcField("raftpb", "Message", "From")},
+		"Membership": {srcField("raftpb", "Snapshot", "Membership")},
+		"BinVer":     {srcConst("raftio", "TransportBinVersion")},
+	}, "the witness snapshot chunk is filed under the wrong replica")
+	n += r.recordSources(rule, []string{"(*internal/rsm.ChunkWriter).getChunk"}, "raftpb", "Chunk", map[string][]src{
+		"ShardID":     {srcMethod("ShardID")},
+		"ReplicaID":   {srcMethod("ToReplicaID")},
+		"From":        {srcField("internal/rsm", "SSMeta", "From")},
+		"Index":       {srcField("internal/rsm", "SSMeta", "Index")},
+		"Term":        {srcField("internal/rsm", "SSMeta", "Term")},
+		"OnDiskIndex": {srcField("internal/rsm", "SSMeta", "OnDiskIndex")},
+		"Membership":  {srcField("internal/rsm", "SSMeta", "Membership")},
+		"ChunkId":     {srcField("internal/rsm", "ChunkWriter", "chunkID")},
+		"FileChunkId": {srcField("internal/rsm", "ChunkWriter", "chunkID")},
+		"BinVer":      {srcConst("raftio", "TransportBinVersion")},
+		"Filepath":    {srcField("internal/rsm", "SSMeta", "Index")},
+	}, "a streamed chunk does not describe the snapshot being streamed")
+	n += r.recordSources(rule, []string{"(*internal/transport.Chunk).toMessage"}, "raftpb", "Snapshot", map[string][]src{
+		"Index":       {srcField("raftpb", "Chunk", "Index")},
+		"Term":        {srcField("raftpb", "Chunk", "Term")},
+		"OnDiskIndex": {srcField("raftpb", "Chunk", "OnDiskIndex")},
+		"Membership":  {srcField("raftpb", "Chunk", "Membership")},
+		"FileSize":    {srcField("raftpb", "Chunk", "FileSize")},
+		"Witness":     {srcField("raftpb", "Chunk", "Witness")},
+		"Filepath":    {srcField("raftpb", "Chunk", "Filepath")},
+	}, "the InstallSnapshot notification does not describe the snapshot that was received")
+	n += r.recordSources(rule, []string{"(*internal/transport.Chunk).toMessage"}, "raftpb", "Message", map[string][]src{
+		"From":    {srcField("raftpb", "Chunk", "From")},
+		"To":      {srcField("raftpb", "Chunk", "ReplicaID")},
+		"ShardID": {srcField("raftpb", "Chunk", "ShardID")},
+		"Type":    {srcConst("raftpb", "InstallSnapshot")},
+	}, "the InstallSnapshot notification is delivered to the wrong replica or under the wrong sender")
+	n += r.recordSources(rule, []string{"(*internal/transport.Chunk).toMessage"}, "raftpb", "MessageBatch", map[string][]src{
+		"BinVer":       {srcField("raftpb", "Chunk", "BinVer")},
+		"DeploymentId": {srcField("raftpb", "Chunk", "DeploymentId")},
+	}, "the notification batch is dropped by the deployment id / binary version filter")
+	// the deployment id stamped by the sending job
+	for _, k := range []string{"(*internal/transport.job).streamSnapshot", "(*internal/transport.job).sendChunks"} {
+		n += r.recordSources(rule, []string{k}, "raftpb", "Chunk", map[string][]src{
+			"DeploymentId": {srcField("internal/transport", "job", "deploymentID")},
+		}, "the receiver drops every chunk whose deployment id differs from its own")
+	}
+	n += r.recordSources(rule, []string{"internal/transport.newJob"}, "internal/transport", "job", map[string][]src{
+		"deploymentID": {srcParam("did")},
+		"shardID":      {srcParam("shardID")},
+		"replicaID":    {srcParam("replicaID")},
+	}, "the job stamps chunks with the wrong identity")
+	r.floor(rule, n, 45)
+}
